@@ -1,26 +1,35 @@
-import ZvbiModel.Search.Witnesses
-/-! # D7 witness (open finding): direction change on a page with sub-code 0x3F7F.  Hex page 11F is cached with
-sub-codes 0 and 0x3F7F, both contain "ab".  A backward search created at (120, ANY) has just returned 11F.3F7F
-(`cexD7Turn` is the search context the C code prints at that point: corpus/C17/D7-turn-on-3f7f.ops).  Turning forward,
-`vbi_search_next` takes `start_subno == 0x3F7F` for the wildcard and puts the forward stop position at (11F, 0): the
-pass answers NOT_FOUND although 11F.0 contains the pattern.  (One kernel evaluation of a page text, ~45 s.) -/
+import ZvbiModel.Search.WitnessD7Defs
+/-! # D7 witnesses: a pass that starts at a page with sub-code 0x3F7F, in BOTH source shapes.
+
+(a) Hex page 11F is cached with sub-codes 0 and 0x3F7F, both contain "ab".  A backward search created at (120, ANY) has
+just returned 11F.3F7F (`cexD7Turn` is the search context the C code prints at that point:
+corpus/C17/D7-turn-on-3f7f.ops).  Turning forward, the UNREPAIRED `vbi_search_next` takes `start_subno == 0x3F7F` for
+the wildcard and puts the forward stop position at (11F, 0): the pass answers NOT_FOUND although 11F.0 contains the
+pattern (one kernel evaluation of a page text, ~45 s).  REPAIRED: the stop position is (11F, 0x3F7F), the walk hands
+11F.3F7F and then (wrapped) 11F.0 to the callback, and 11F.0 does not stop the pass (the whole search is evaluated in
+WitnessD7Fixed.lean).
+(b) Page 80A cached with sub-codes 0x3F7F and 2, the latter most recently used: a backward walk from (80A, 0x3F7F) is
+handed 80A.2 first by the UNREPAIRED start look-up (wildcard), 80A.3F7F by the REPAIRED one
+(corpus/C17/D7b-start-lookup-3f7f.ops). -/
 namespace Zvbi.Search
 set_option maxRecDepth 100000
 
-def abPage4 : Text := [[], [], [], textRow "yy ab xx"]
-
-def cexD7 : Cache := build [⟨0x11F, 0, 0, abPage⟩, ⟨0x11F, 0x3F7F, 0, abPage4⟩]
-
-/-- the search context after `vbi_search_next (-1)` returned 11F.3F7F ("ab" at row 4, columns 3..4) -/
-def cexD7Turn : SearchSt :=
-  { startPgno := 0x11F, startSubno := 0x3F7F, stopPgno0 := 0x120, stopSubno0 := 0, stopPgno1 := 0x120,
-    stopSubno1 := 0x3F7E, row0 := 4, col0 := 5, row1 := 4, col1 := 3, dir := -1, pgPgno := 0x11F, pgSubno := 0x3F7F }
-
-theorem cexD7_facts :
-    ((prepare cexD7Turn 1).stopPgno0, (prepare cexD7Turn 1).stopSubno0) = (0x11F, 0) ∧
+theorem cexD7_unrepaired :
+    ((prepare Shape.unrepaired cexD7Turn 1).stopPgno0, (prepare Shape.unrepaired cexD7Turn 1).stopSubno0) = (0x11F, 0) ∧
     ((lookupX cexD7 0x11F 0).map (·.text)) = some abPage ∧
     exAb {} (hayFwd abPage (-1) 0).1 = some (85, 87) ∧
-    (searchNext exAb walkFuel cexD7 cexD7Turn 1).res = .ret SEARCH_NOT_FOUND := by
-  refine ⟨by decide +kernel, by decide +kernel, by decide +kernel, by decide +kernel⟩
+    (searchNext Shape.unrepaired exAb walkFuel cexD7 cexD7Turn 1).res = .ret SEARCH_NOT_FOUND ∧
+    (cexD7b.slots 0x80A).chain.map (·.subno) = [2, 0x3F7F] ∧
+    (walk Shape.unrepaired logTwo walkFuel cexD7b [] 0x80A 0x3F7F (-1)).st.take 1 = [(0x80A, 2, false)] := by
+  refine ⟨by decide +kernel, by decide +kernel, by decide +kernel, by decide +kernel, by decide +kernel,
+    by decide +kernel⟩
+
+theorem cexD7_repaired :
+    ((prepare Shape.repaired cexD7Turn 1).stopPgno0, (prepare Shape.repaired cexD7Turn 1).stopSubno0) = (0x11F, 0x3F7F) ∧
+    (walk Shape.repaired logTwo walkFuel cexD7 [] 0x11F 0x3F7F 1).st = [(0x11F, 0x3F7F, false), (0x11F, 0, true)] ∧
+    ((lookupX cexD7 0x11F 0).map (fun e => stopFwd (prepare Shape.repaired cexD7Turn 1) 0x11F e true)) = some false ∧
+    ((lookupX cexD7 0x11F 0).map (fun e => stopFwd (prepare Shape.unrepaired cexD7Turn 1) 0x11F e true)) = some true ∧
+    (walk Shape.repaired logTwo walkFuel cexD7b [] 0x80A 0x3F7F (-1)).st = [(0x80A, 0x3F7F, false), (0x80A, 2, false)] := by
+  refine ⟨by decide +kernel, by decide +kernel, by decide +kernel, by decide +kernel, by decide +kernel⟩
 
 end Zvbi.Search
